@@ -28,6 +28,8 @@ ASSUMPTIONS = ['class names are usable as file names (no "/" or NUL, no lone sur
 ALPH = ['plain', 'a<b&c>d"e\'f', ']]>', '\x01\x02', '\x00', '\x7f\x85', '\ud800', 'z\udfff', '￾￿', '\U0001f600', 'l1\nl2',
         'cr\rlf', 'crlf\r\nend', '\ttab', 'é ü 中', '', 'x' * 300, '&amp; &#1; &lt;']
 CLS = ['CPlain', 'C<w&"q\'>', 'Cé中', 'C x.y']
+# class names that differ only in characters XML cannot carry: two suites, two report files
+TWINS = ['Csep\x1e', 'Csep\x1f']
 MSUF = ['', '', '', '_<&>"', '_é', '_\x01', '_a b', "_'q"]
 PH = {'setUp': (0, 0), 'body': (1, 0), 'tearDown': (3, 0)}
 
@@ -49,7 +51,7 @@ def generate(rng, tier, rep):
                                     {'layer': None, 'cls': 'CPlain'}]})
     for _ in range(n):
         tests = []
-        classes = rng.sample(CLS, rng.randint(1, 2))
+        classes = rng.sample(CLS, rng.randint(1, 2)) if rng.random() < 0.85 else list(TWINS)
         for _ in range(rng.randint(1, 6)):
             T = {'layer': None, 'cls': rng.choice(classes), 'msuffix': rng.choice(MSUF)}
             r = rng.random()
